@@ -16,12 +16,12 @@ run_demo() { # $1 = seed dir; returns 0 if the demonstration passes
     local d="$1" n; n=$(basename "$d")
     if ls "$d"/demo.py >/dev/null 2>&1; then
         local feat=""
-        grep -q "verif/text" "$d/demo.py" "$d/demo.md" 2>/dev/null && feat="--features verif"
+        grep -q "verif" "$d/demo.py" "$d/demo.md" 2>/dev/null && feat="--features verif"
         cargo build -q --release -p lsp4spl --offline $feat 2>/dev/null || return 2
-        LSP4SPL_BIN="$WT/target/release/lsp4spl" timeout 300 python3 "$d/demo.py" >/tmp/verify_demo.out 2>&1
+        LSP4SPL_BIN="$WT/target/release/lsp4spl" timeout 600 python3 "$d/demo.py" "$WT/target/release/lsp4spl" >/tmp/verify_demo.out 2>&1
         return $?
     fi
-    local f; f=$(ls "$d"/seeded_*.rs | head -1); local mod; mod=$(basename "$f" .rs)
+    local f; f=$(ls "$d"/*.rs | head -1); local mod; mod=$(basename "$f" .rs)
     if grep -qE "spl_frontend/tests" "$d/demo.md"; then
         mkdir -p spl_frontend/tests; cp "$f" spl_frontend/tests/
         timeout 900 cargo test -q -p spl_frontend --offline --test "$mod" >/tmp/verify_demo.out 2>&1
